@@ -119,7 +119,7 @@ func runBFS(env *vlib.Env, k int, rep *vlib.Reporter) {
 		Validators: []abcitypes.ValidatorUpdate{smchain.ValUpdate(u.ValKeys[3], 10)}}
 	alpha := alphabet(u, v)
 	depth := env.Scale(6, 7)
-	maxStates := env.Scale(1500, 25000)
+	maxStates := env.Scale(1500, 12000)
 	visited := map[uint64]struct{}{}
 	frontier := [][]int{{first}}
 	states, transitions := 0, 0
